@@ -1,6 +1,7 @@
 import SunriseVerif.Model.Dec
 import SunriseVerif.Gen.KernelsCL
 import SunriseVerif.Model.TickKey
+import SunriseVerif.Model.TickMath
 /-! Line-protocol evaluation of the Dec primitives (`D …`) and regenerated kernels (`K …`). -/
 namespace Sunrise.Driver
 open Sunrise Sunrise.Gen.KernelsCL
@@ -38,6 +39,12 @@ def evalK : List String → String
   | ["NextQuoteIn", c, l, a] => g (GetNextSqrtPriceFromAmountQuoteInRoundingDown_ok (pDec c) (pDec l) (pDec a)) (r (GetNextSqrtPriceFromAmountQuoteInRoundingDown (pDec c) (pDec l) (pDec a)))
   | ["NextQuoteOut", c, l, a] => g (GetNextSqrtPriceFromAmountQuoteOutRoundingDown_ok (pDec c) (pDec l) (pDec a)) (r (GetNextSqrtPriceFromAmountQuoteOutRoundingDown (pDec c) (pDec l) (pDec a)))
   | ["GetLiquidityFromAmounts", c, pa, pb, ab, aq] => g (GetLiquidityFromAmounts_ok (pDec c) (pDec pa) (pDec pb) (pInt ab) (pInt aq)) (r (GetLiquidityFromAmounts (pDec c) (pDec pa) (pDec pb) (pInt ab) (pInt aq)))
+  | ["TickToSqrtPrice", t, ratio, off] =>
+    (match Sunrise.TickMath.tickToSqrtPrice (pInt t) ⟨pDec ratio, pDec off⟩ with
+     | .ok v => r v | .err _ => "err" | .panic _ => "panic")
+  | ["SqrtPriceToTick", sp, ratio, off] =>
+    (match Sunrise.TickMath.sqrtPriceToTick (pDec sp) ⟨pDec ratio, pDec off⟩ with
+     | .ok v => toString v | .err _ => "err" | .panic _ => "panic")
   | ["TickIndexToBytes", t] => " ".intercalate ((Sunrise.TickKey.bytes (pInt t)).map toString)
   | ["IsCurrentTickInRange", c, lo, hi] => if IsCurrentTickInRange (pInt c) (pInt lo) (pInt hi) then "1" else "0"
   | ["bfq_OutGivenIn", lim, fee, c, t, l, a] => g (bfq_ComputeSwapWithinBucketOutGivenIn_ok (pDec lim) (pDec fee) (pDec c) (pDec t) (pDec l) (pDec a)) (r4 (bfq_ComputeSwapWithinBucketOutGivenIn (pDec lim) (pDec fee) (pDec c) (pDec t) (pDec l) (pDec a)))
